@@ -6,6 +6,7 @@ pub mod parse;
 pub mod paths;
 pub mod pct;
 pub mod refs;
+pub mod rel;
 pub mod resolve;
 
 use crate::common::Fails;
@@ -25,6 +26,8 @@ pub fn run_case(case: &Value, f: &mut Fails) -> Result<(), String> {
 		Some("edit") => edit::run(case, f),
 		Some("pathbeh") => beh::run_path(case, f),
 		Some("authbeh") => beh::run_auth(case, f),
+		Some("rel") => rel::run_rel(case, f),
+		Some("suffix") => rel::run_suffix(case, f),
 		Some("ref") => refs::run(case, f),
 		Some(k) => return Err(format!("unknown case kind {k}")),
 		None => return Err("case without kind".into()),
